@@ -2,35 +2,124 @@
 C12 — generating / nullable / reachable symbols, emptiness and ε-membership are exact.
 -/
 import Pfl.Proofs.CFGBase
+import Pfl.Proofs.CFGClasses
 namespace Pfl
 namespace CFG
 
 theorem mem_generating_iff (G : CFG) (hG : G.WF) (s : Sym) :
     s ∈ G.generating ↔
       (∃ t, s = .ter t ∧ t ∈ G.ters) ∨ (∃ v w, s = .var v ∧ G.Gen (.var v) w) := by
-  sorry
+  constructor
+  · -- soundness
+    have key : ∀ x ∈ G.generating,
+        (∃ t, x = Sym.ter t ∧ t ∈ G.ters) ∨ (∃ v w, x = Sym.var v ∧ G.Gen (.var v) w) := by
+      unfold generating
+      refine iter_inv G.closeStep
+        (fun S => ∀ x ∈ S, (∃ t, x = Sym.ter t ∧ t ∈ G.ters) ∨
+          (∃ v w, x = Sym.var v ∧ G.Gen (.var v) w)) ?_ _ _ ?_
+      · intro S hS
+        apply closeStep_forall G _ _ S hS
+        intro p hp hbody
+        obtain ⟨w, hw⟩ := genList_of_forall G p.2 (by
+          intro x hx
+          rcases hbody x hx with ⟨t, rfl, _⟩ | ⟨v, w, rfl, hg⟩
+          · exact ⟨[t], Gen.ter t⟩
+          · exact ⟨w, hg⟩)
+        exact Or.inr ⟨p.1, w, rfl, Gen.var (body := p.2) hp hw⟩
+      · intro x hx
+        obtain ⟨t, ht, rfl⟩ := List.mem_map.mp hx
+        exact Or.inl ⟨t, rfl, ht⟩
+    exact key s
+  · -- completeness
+    have hbase : ∀ t ∈ G.ters, Sym.ter t ∈ G.generating := by
+      intro t ht
+      exact (iter_prefix G _ _).subset (List.mem_map.mpr ⟨t, ht, rfl⟩)
+    rintro (⟨t, rfl, ht⟩ | ⟨v, w, rfl, hg⟩)
+    · exact hbase t ht
+    · exact closed_complete_gen G hG _ (iter_closed G _) hbase hg (by intro t e; cases e)
 
 theorem mem_nullable_iff (G : CFG) (s : Sym) :
     s ∈ G.nullable ↔ ∃ v, s = .var v ∧ G.Gen (.var v) [] := by
-  sorry
+  constructor
+  · have key : ∀ x ∈ G.nullable, ∃ v, x = Sym.var v ∧ G.Gen (.var v) [] := by
+      unfold nullable
+      refine iter_inv G.closeStep
+        (fun S => ∀ x ∈ S, ∃ v, x = Sym.var v ∧ G.Gen (.var v) []) ?_ _ _ ?_
+      · intro S hS
+        apply closeStep_forall G _ _ S hS
+        intro p hp hbody
+        have hw := genList_nil_of_forall G p.2 (by
+          intro x hx
+          obtain ⟨v, rfl, hg⟩ := hbody x hx
+          exact hg)
+        exact ⟨p.1, rfl, Gen.var (body := p.2) hp hw⟩
+      · intro x hx; cases hx
+    exact key s
+  · rintro ⟨v, rfl, hg⟩
+    exact closed_complete_null G _ (iter_closed G _) hg rfl
 
 /-- the reachable symbols are those occurring in a sentential form derivable from the start -/
 theorem mem_reachable_iff (G : CFG) (s : Sym) :
     s ∈ G.reachable ↔
       ∃ st, G.start = some st ∧ ∃ u v, G.Derives [.var st] (u ++ [s] ++ v) := by
-  sorry
+  cases hst : G.start with
+  | none => simp [reachable, hst]
+  | some st =>
+    rw [reachable_eq G st hst]
+    obtain ⟨res, hres⟩ := Option.isSome_iff_exists.mp (reachable_bfs_isSome G st)
+    rw [hres, Option.getD_some, mem_bfs_iff _ _ _ _ hres]
+    constructor
+    · rintro ⟨x, hx, hr⟩
+      simp at hx; subst hx
+      exact ⟨st, rfl, reach_to_derives G st s hr⟩
+    · rintro ⟨st', hst', u, v, hd⟩
+      cases hst'
+      refine ⟨Sym.var st, by simp, ?_⟩
+      refine derives_closed G (fun x => Reach G.rnext (Sym.var st) x)
+        (fun x y hx hy => Reach.tail hx hy) hd ?_ s (by simp)
+      intro x hx; simp at hx; subst hx; exact Reach.refl _
 
 theorem isEmpty_iff (G : CFG) (hG : G.WF) : G.isEmpty = true ↔ ∀ w, ¬ G.Lang w := by
-  sorry
+  unfold isEmpty
+  cases hst : G.start with
+  | none =>
+    simp only [true_iff]
+    intro w hw
+    obtain ⟨s, hs, _⟩ := (lang_iff_gen G w).mp hw
+    rw [hst] at hs; cases hs
+  | some st =>
+    simp only [decide_eq_true_eq]
+    rw [mem_generating_iff G hG]
+    constructor
+    · intro h w hw
+      obtain ⟨s, hs, hg⟩ := (lang_iff_gen G w).mp hw
+      rw [hst] at hs; cases hs
+      exact h (Or.inr ⟨_, w, rfl, hg⟩)
+    · rintro h (⟨t, e, _⟩ | ⟨v, w, e, hg⟩)
+      · cases e
+      · cases e
+        exact h w ((lang_iff_gen G w).mpr ⟨_, hst, hg⟩)
 
 theorem generateEpsilon_iff (G : CFG) : G.generateEpsilon = true ↔ G.Lang [] := by
-  sorry
+  unfold generateEpsilon
+  rw [lang_iff_gen]
+  cases hst : G.start with
+  | none => simp
+  | some st =>
+    simp only [decide_eq_true_eq]
+    rw [mem_nullable_iff]
+    constructor
+    · rintro ⟨v, e, hg⟩; cases e; exact ⟨_, rfl, hg⟩
+    · rintro ⟨s, hs, hg⟩; cases hs; exact ⟨_, rfl, hg⟩
 
 theorem generating_nodup (G : CFG) (h : G.ters.Nodup) : G.generating.Nodup := by
-  sorry
+  unfold generating
+  refine iter_inv G.closeStep List.Nodup (closeStep_nodup G) _ _ ?_
+  exact List.Pairwise.map Sym.ter (fun a b hab e => hab (by cases e; rfl)) h
 
 theorem nullable_nodup (G : CFG) : G.nullable.Nodup := by
-  sorry
+  unfold nullable
+  exact iter_inv G.closeStep List.Nodup (closeStep_nodup G) _ _ List.nodup_nil
 
 end CFG
 end Pfl
